@@ -31,7 +31,7 @@ ASSUMPTIONS = [
     'name with different types (K::TEN integer, L::TEN string) and a constant named like an enumerator (L::Red); the family "names" reads '
     'every ordered pair of these qualified names in one body; user data types defined over an enumeration are not part of the host',
     'programs are printed on one line with single blanks, except the programs with elif clauses, which are also printed with a '
-    'line per statement and clause in equal, falling and rising columns (layouts lines, stairs, climb); layout in general is C06\'s '
+    'line per statement and clause in equal, falling and rising columns, and in falling columns with every line ending in a // comment (layouts lines, stairs, climb, stairs-remarks); layout in general is C06\'s '
     'and C07\'s subject',
     'every translation runs on a copy-on-write snapshot (fork) of one pristine host per worker, verified consistent before use',
 ]
@@ -58,7 +58,7 @@ REQUIRED_FEATURES = [
   + ['unary:' + op for op in ('not', 'empty', 'not_empty', 'cardinality', '+', '-')]
 
 
-ELIF_LAYOUTS = ('lines', 'stairs', 'climb')
+ELIF_LAYOUTS = ('lines', 'stairs', 'climb', 'stairs-remarks')
 
 
 def has_elif(stmts):
